@@ -294,7 +294,7 @@ def build_world(case, order: str, rng):
 def gen_world(rng):
     length = rng.choice([40, 60, 90, 120])
     circular = rng.random() < 0.6
-    products = ["alpha", "beta", "gamma"]
+    products = ["alpha", "beta", "alpha-like"]      # one name contains another (NRPS / NRPS-like among the shipped rules)
     gene_locs = W.rand_gene_layout(rng, length, circular, rng.randrange(2, 11), max_gene=max(4, length // 6),
                                    dense=rng.random() < 0.6)
     genes = []
